@@ -1,11 +1,11 @@
 // C33 harness: JSON encodings of zcrypto value types round-trip.
 //
-//   --tables : regenerates coq/gen/C33Tables_gen.v (name tables read off the built code)
-//   streams  : rt       (value, tree Marshal produced, value Unmarshal produced)   per value
-//              dcase    (type, arbitrary tree, value/err/panic Unmarshal produced)
-//              xenum    (type, bits, checksum over all code points: tree + decoded value)
-//              xsighash (checksum over all 2^8 signature and 2^8 hash codes)
-//   oracle   : Unmarshal(Marshal(v)) succeeds, equals v, no panic — on the implementation alone.
+//	--tables : regenerates coq/gen/C33Tables_gen.v (name tables read off the built code)
+//	streams  : rt       (value, tree Marshal produced, value Unmarshal produced)   per value
+//	           dcase    (type, arbitrary tree, value/err/panic Unmarshal produced)
+//	           xenum    (type, bits, checksum over all code points: tree + decoded value)
+//	           xsighash (checksum over all 2^8 signature and 2^8 hash codes)
+//	oracle   : Unmarshal(Marshal(v)) succeeds, equals v, no panic — on the implementation alone.
 package main
 
 import (
@@ -475,18 +475,25 @@ func gen(c *vh.Ctx) {
 }
 
 type replayInput struct {
-	Kind  string          `json:"kind"` // enum | sighash | struct | tree
-	Type  string          `json:"type"`
-	Value int64           `json:"value"`
-	Sig   int             `json:"sig"`
-	Hash  int             `json:"hash"`
-	JSON  json.RawMessage `json:"json"` // struct: the value in the harness's own input format; tree: the tree
+	Many  []json.RawMessage `json:"many"` // several inputs in one replay file
+	Kind  string            `json:"kind"` // enum | sighash | struct | tree
+	Type  string            `json:"type"`
+	Value int64             `json:"value"`
+	Sig   int               `json:"sig"`
+	Hash  int               `json:"hash"`
+	JSON  json.RawMessage   `json:"json"` // struct: the value in the harness's own input format; tree: the tree
 }
 
 func replay(c *vh.Ctx, raw json.RawMessage) {
 	var in replayInput
 	if err := json.Unmarshal(raw, &in); err != nil {
 		panic(err)
+	}
+	if len(in.Many) > 0 {
+		for _, r := range in.Many {
+			replay(c, r)
+		}
+		return
 	}
 	if in.Kind == "" { // an input recorded by the streams
 		var probe map[string]json.RawMessage
